@@ -16,7 +16,7 @@ ASSUMPTIONS = ["R6 decision table: active iff no ack, or snooze > ack, or effect
 SOFT_S = {"quick": 8, "thorough": 120}
 UTC = timezone.utc
 KINDS = ("utc", "zoned", "floating", "date")
-LOCAL = (None, "str", "tzinfo")
+LOCAL = (None, "str", "tzinfo", "foreign-tzinfo")
 N = 7
 
 
@@ -56,6 +56,15 @@ def build(case):
     elif local == "tzinfo":
         local_tz = tzp.timezone("America/New_York")
         local_arg = local_tz
+    elif local == "foreign-tzinfo":
+        # a tzinfo object of the *other* tz library than the active provider's
+        if prov == "pytz":
+            import zoneinfo
+            local_arg = zoneinfo.ZoneInfo("Europe/Berlin")
+        else:
+            import pytz
+            local_arg = pytz.timezone("Europe/Berlin")
+        local_tz = local_arg
     trig_delta = timedelta(minutes=-15)
     if kind == "utc":
         start = vals.attach(base, vals.tzinfo_for("UTC"))
